@@ -559,3 +559,21 @@ M('c01-argstr-class-excludes-quotes', 'C01', 'R18', F, "(?P<argstr>[^}]*)", "(?P
 M('c01-cname-class-runs-over-paren', 'C01', 'R18', F, "(?P<cname>[^}\\(]*)", "(?P<cname>[^}]*)")
 M('c01-fname-class-excludes-paren', 'C01', 'R18', F, "(?P<fname>[^}:]*)", "(?P<fname>[^}:(]*)")
 # negative controls (exit 0): `[^\}]*`, the lazy `[^}]*?`; a `\w*` class is exit 2 (category items are not read)
+
+# wave 10 / k1-c01-3: an f-string in src() is read like the equivalent .format call (construct model and R9's placements)
+LIT_SRC = ("        template = '{0}if path[{1}] == {2!r}:\\n{3}'\n        return template.format(\n            _TAB_STR * indentation,\n"
+           "            self._segment_idx,\n            self._literal,\n            self._children_src(indentation + 1),\n        )\n")
+M('c01-literal-fstring-hand-quoted', 'C01', 'R9', F, LIT_SRC,
+  "        return f\"{_TAB_STR * indentation}if path[{self._segment_idx}] == '{self._literal}':\\n{self._children_src(indentation + 1)}\"\n")
+M('c01-literal-fstring-bare', 'C01', 'R9', F, LIT_SRC,
+  "        indent = _TAB_STR * indentation\n"
+  "        return f\"{indent}if path[{self._segment_idx}] == {self._literal}:\\n{self._children_src(indentation + 1)}\"\n")
+M('c01-literal-fstring-escape-quote-only', 'C01', 'R9', F, LIT_SRC,
+  "        lit = self._literal.replace(\"'\", \"\\\\'\")\n"
+  "        return f\"{_TAB_STR * indentation}if path[{self._segment_idx}] == '{lit}':\\n{self._children_src(indentation + 1)}\"\n")
+M('c01-pattern-text-fstring-quoted', 'C01', 'R9', F,
+  "            '{0}match = patterns[{1}].match(path[{2}])  # {3}'.format(\n                _TAB_STR * indentation,\n                self._pattern_idx,\n"
+  "                self._segment_idx,\n                self._pattern_text,\n            ),\n",
+  "            f\"{_TAB_STR * indentation}match = patterns[{self._pattern_idx}].match(path[{self._segment_idx}]); pattern = '{self._pattern_text}'\",\n")
+# negative controls (exit 0): k1-c01-3 (seven src() methods as f-strings, `indent` local); the literal as
+# f"{indent}if path[{self._segment_idx}] == {self._literal!r}:\n{...}" and with {repr(self._literal)}
